@@ -278,6 +278,14 @@ def family_c09(tier, seed):
                 out.append(gram.mk('cmd', F(Ref('P'), Ref('Q')), [('P', None, S(L(h), t1)), ('Q', None, S(L(h), t2))]))
         out.append(gram.mk('cmd', F(L(h), S(L(h), L('b')))))
         out.append(gram.mk('cmd', Many(F(L(h), S(L(h), L('b'))))))
+    # the same literal with different descriptions (documented to be rejected: if such a grammar is accepted it is an accepted
+    # grammar with one word read as two items)
+    for (d1, d2) in (('first reading', 'second reading'), ('only one', None), (None, 'only two')):
+        for t1, t2 in ((L('x'), L('y')), (S(L('x'), L('e')), L('x'))):
+            out.append(gram.mk('cmd', F(S(L('foo', d1), t1), S(L('foo', d2), t2))))
+            out.append(gram.mk('cmd', A(S(L('foo', d1), t1), S(L('foo', d2), t2))))
+            out.append(gram.mk('cmd', F(L('q'), S(L('foo', d1), t1), S(L('foo', d2), t2))))
+            out.append({'command': 'cmd', 'variants': [S(L('foo', d1), t1), S(L('foo', d2), t2)], 'defs': []})
     # the same external command / within-word expression at the start of two || branches
     C = gram.Cmd
     for item in (C('echo x'), Ref('U'), Sub(L('k='), A(L('1'), L('2'))), Sub(L('k='), C('echo v'))):
@@ -574,7 +582,7 @@ def family_c12(tier, seed):
         for sec in seconds[f][:(2 if tier == 'quick' else 3)]:
             out.append(gram.mk('cmd', S(Sub(L('--r='), A(*[L(v) for v in f]), L(','), A(*[L(v) for v in sec])), A(L('x'), L('y')))))
             out.append(gram.mk('cmd', S(Sub(L('--r='), A(*[L(v) for v in sec]), L(','), A(*[L(v) for v in f])), L('x'))))
-    return [('prefix-chain value sets', out)]
+    return [('prefix-chain value sets', out), long_candidate_family(PROBES)]
 
 
 E2_REQUIRED_EVENTS = {
@@ -712,6 +720,17 @@ def check_C12(tier, seed):
     return rep
 
 
+def long_candidate_family(base_probes):
+    """command candidates of which one is a prefix of another and the longer one has a two-digit length (the emitted code
+    orders candidates by length with sort -n)"""
+    L, S, A, Sub, Cmd = gram.Lit, gram.Seq, gram.Alt, gram.Sub, gram.Cmd
+    c10 = Cmd(probe('c10'))
+    out = [gram.mk('cmd', S(Sub(L('k='), c10), L('x'))),
+           gram.mk('cmd', S(Sub(L('k'), c10, L('@'), A(L('o'), L('t'))), L('x')))]
+    probes = dict(base_probes, c10='abc\nabcdefghij\n')
+    return ('command candidates of length >= 10 next to shorter ones', out, 2, {'probes': probes, 'max_len': 14})
+
+
 def scope_shapes():
     """tables of the main automaton and of several within-word automata live in one dynamic scope: a command / placeholder
     at top level together with within-word expressions that do and do not contain one"""
@@ -786,7 +805,8 @@ def family_c17(tier, seed):
     special = [gram.mk('cmd', S(c8, L('x'))), gram.mk('cmd', S(Sub(L('k='), c8), L('x'))), gram.mk('cmd', S(F(L('lit'), c8), Opt(c8))),
                gram.mk('cmd', S(c9, L('x'))), gram.mk('cmd', S(Sub(L('k='), c9), L('x'))), gram.mk('cmd', S(F(L('lit'), c9), Opt(c9)))]
     return [('commands at every syntactic position', out), ('repeated mixtures of commands and within-word items', loops, 1 if tier == 'quick' else 2),
-            ('command output with backslashes, glob characters and blanks', special, 2, {'concrete_vocab_cases': True})]
+            ('command output with backslashes, glob characters and blanks', special, 2, {'concrete_vocab_cases': True}),
+            long_candidate_family(dict(PROBES, **PROBES_C17))]
 
 
 def check_C17(tier, seed):
